@@ -10,8 +10,13 @@ Definition pdf_attr (log : bool) : string := if log then "logpdf"%string else "p
 Definition pdf_node (log : bool) (p : name) : name :=
   String.append "_" (String.append p (String.append "_" (pdf_attr log))).
 
-(** identity of the bound method distribution.pdf of parameter p *)
-Definition pdf_opid (log : bool) (p : name) : name := String.append (pdf_attr log) (String.append ":" p).
+(** identity of the bound method distribution.pdf of a distribution with identity d *)
+Definition pdf_opid (log : bool) (d : name) : name := String.append (pdf_attr log) (String.append ":" d).
+
+(** identity of the distribution object held by parameter node p (node.distribution): it is part of
+    the node's state, so it follows the node through become(...) and is NOT a function of the name *)
+Definition dist_id (m : snet) (p : name) : name :=
+  match lookup p (s_nodes m) with Some st => s_opid st | None => p end.
 
 Definition joint_node : name := "_joint"%string.
 
@@ -25,7 +30,7 @@ Fixpoint add_distribution_nodes (m : snet) (P : list name) (log : bool) : res sn
   | [] => Ok m
   | p :: r =>
       if negb (has p (s_nodes m)) then Err (EMissingNode p) else
-      do m1 <- step_model m (EAddNode 0 (pdf_node log p) (op_state (pdf_opid log p)) (p :: get_parents m p) None);
+      do m1 <- step_model m (EAddNode 0 (pdf_node log p) (op_state (pdf_opid log (dist_id m p))) (p :: get_parents m p) None);
       add_distribution_nodes m1 r log
   end.
 
@@ -50,14 +55,20 @@ Definition interp_reduce (log : bool) (v : value) : option value :=
   | _ => None
   end.
 
-(** ModelPrior._evaluate_pdf: the joint node with the parameter columns supplied *)
-Definition evaluate (m : snet) (P : list name) (log : bool) (x : list (name * value)) : res value :=
-  do a <- augment m P log;
+(** ModelPrior._evaluate_pdf: the joint node with the parameter columns supplied.  [evaluate_in] is
+    the part that runs on every call (load the compiled net, override the parameter nodes, execute);
+    the augmented net [a] is prepared once, in ModelPrior.__init__.  Nothing is carried from one
+    call to the next: the result is a function of the augmented net and the supplied point only. *)
+Definition evaluate_in (a : snet) (log : bool) (x : list (name * value)) : res value :=
   do r <- generate a [joint_node] x;
   match lookup joint_node (fst r) with
   | Some v => match interp_reduce log v with Some t => Ok t | None => Err (EMissingOutput joint_node) end
   | None => Err (EMissingOutput joint_node)
   end.
+
+Definition evaluate (m : snet) (P : list name) (log : bool) (x : list (name * value)) : res value :=
+  do a <- augment m P log;
+  evaluate_in a log x.
 
 (** ---- the specification: product (sum of logs) of the conditional densities ---- *)
 (** value of a parent of a parameter at the point x: the supplied column, or the constant *)
@@ -80,7 +91,7 @@ Fixpoint all_some {A} (l : list (option A)) : option (list A) :=
 (** density factor of parameter p: pdf_p(x_p; parents' values) *)
 Definition factor (m : snet) (log : bool) (x : list (name * value)) (p : name) : option value :=
   match lookup p x, all_some (map (arg_value m x) (get_parents m p)) with
-  | Some xp, Some args => Some (VApp (OpUser (pdf_opid log p)) (xp :: args) [])
+  | Some xp, Some args => Some (VApp (OpUser (pdf_opid log (dist_id m p))) (xp :: args) [])
   | _, _ => None
   end.
 
@@ -128,3 +139,145 @@ Definition agree (c : case) : bool :=
 Definition ok (c : case) : bool :=
   negb (wf_request (p_model c) (p_params c))
   || opt_eqb (joint_spec (p_model c) (p_params c) (p_log c) (p_point c)) (p_impl c).
+
+(** ---- histories: several joint-prior objects, several calls on each (wave 2) ----
+    ModelPrior.pdf/logpdf on an array: x.reshape((-1, dim)), column i feeds parameter i, every row
+    is one point; a 0-d input, and a 1-d input when dim > 1, is a single point whose answer is
+    val[0] (no axes); every other input gives one answer per row (one axis).  The model keeps
+    nothing between two calls and nothing between two objects: each call is evaluated from the
+    graph the object was built from and the call's own array, whatever happened before. *)
+Record call := {
+  c_log : bool;
+  c_shape : list nat;                          (* shape of the array handed to pdf / logpdf *)
+  c_data : list Z;                             (* its elements in C order *)
+  c_impl : option (list nat * list value)      (* observed shape and elements of the answer, None = raised *)
+}.
+
+Record epoch := {
+  e_model : snet;                              (* the user's model when this ModelPrior was built (introspected then) *)
+  e_params : list name;
+  e_calls : list call                          (* the calls made on this object, at any later time of the history *)
+}.
+
+Fixpoint take_row (d : nat) (l : list Z) : option (list Z * list Z) :=
+  match d with
+  | O => Some ([], l)
+  | S d' => match l with
+            | [] => None
+            | z :: r => match take_row d' r with Some (row, rest) => Some (z :: row, rest) | None => None end
+            end
+  end.
+
+(** reshape((-1, d)) of the flat data; None = the size is not a multiple of d *)
+Fixpoint rows_of (fuel d : nat) (l : list Z) : option (list (list Z)) :=
+  match l with
+  | [] => Some []
+  | _ :: _ =>
+      match fuel with
+      | O => None
+      | S f => match take_row d l with
+               | Some (row, rest) => match rows_of f d rest with Some rs => Some (row :: rs) | None => None end
+               | None => None
+               end
+      end
+  end.
+
+Fixpoint map_res {A B} (f : A -> res B) (l : list A) : res (list B) :=
+  match l with
+  | [] => Ok []
+  | a :: r => do b <- f a; do bs <- map_res f r; Ok (b :: bs)
+  end.
+
+(** _to_batch: column i of the row is the value of requested parameter i *)
+Definition point_of (P : list name) (row : list Z) : list (name * value) := combine P (map VConst row).
+
+(** ndim == 0 or (ndim == 1 and dim > 1) *)
+Definition single_point_form (dim : nat) (shape : list nat) : bool :=
+  match shape with [] => true | [_] => Nat.ltb 1 dim | _ => false end.
+
+Definition eval_rows (m : snet) (P : list name) (log : bool) (rows : list (list Z)) : res (list value) :=
+  do a <- augment m P log;
+  map_res (fun r => evaluate_in a log (point_of P r)) rows.
+
+Definition eval_call (m : snet) (P : list name) (c : call) : option (list nat * list value) :=
+  let dim := List.length P in
+  match rows_of (List.length (c_data c)) dim (c_data c) with
+  | None => None
+  | Some rows =>
+      match eval_rows m P (c_log c) rows with
+      | Err _ => None
+      | Ok vs => if single_point_form dim (c_shape c)
+                 then match vs with v :: _ => Some ([], [v]) | [] => None end
+                 else Some ([List.length vs], vs)
+      end
+  end.
+
+Fixpoint values_eqb (a b : list value) : bool :=
+  match a, b with
+  | [], [] => true
+  | x :: r, y :: s => value_eqb x y && values_eqb r s
+  | _, _ => false
+  end.
+
+Fixpoint shape_eqb (a b : list nat) : bool :=
+  match a, b with
+  | [], [] => true
+  | x :: r, y :: s => Nat.eqb x y && shape_eqb r s
+  | _, _ => false
+  end.
+
+Definition answer_eqb (a b : option (list nat * list value)) : bool :=
+  match a, b with
+  | Some (s, v), Some (t, w) => shape_eqb s t && values_eqb v w
+  | None, None => true
+  | _, _ => false
+  end.
+
+Definition agree_call (m : snet) (P : list name) (c : call) : bool := answer_eqb (eval_call m P c) (c_impl c).
+
+Definition agree_epoch (e : epoch) : bool := forallb (agree_call (e_model e) (e_params e)) (e_calls e).
+
+(** the forms of input the property speaks about: a scalar (one parameter), a vector that is one point
+    (several parameters) or a list of points (one parameter), a matrix with one point per row; the
+    number of points and whether the answer has an axis *)
+Definition proper_form (dim : nat) (shape : list nat) : option (nat * bool) :=
+  match shape with
+  | [] => if Nat.eqb dim 1 then Some (1, false) else None
+  | [k] => if Nat.eqb dim 1 then (if Nat.eqb k 0 then None else Some (k, true))
+           else if Nat.eqb k dim then Some (1, false) else None
+  | [n; d] => if Nat.eqb d dim && negb (Nat.eqb n 0) then Some (n, true) else None
+  | _ => None
+  end.
+
+Definition spec_rows (m : snet) (P : list name) (log : bool) (rows : list (list Z)) : option (list value) :=
+  all_some (map (fun r => joint_spec m P log (point_of P r)) rows).
+
+(** the property on one call: a proper input of n points is answered with exactly n values (no axis
+    for a single point given as scalar / vector), each the product (sum of logs) of the conditional
+    densities at its own row *)
+Definition ok_call (m : snet) (P : list name) (c : call) : bool :=
+  let dim := List.length P in
+  match proper_form dim (c_shape c) with
+  | None => true
+  | Some (n, axis) =>
+      negb (Nat.eqb (List.length (c_data c)) (n * dim))
+      || match rows_of (List.length (c_data c)) dim (c_data c), c_impl c with
+         | Some rows, Some (sh, vs) =>
+             shape_eqb sh (if axis then [n] else [])
+             && match spec_rows m P (c_log c) rows with Some ws => values_eqb ws vs | None => false end
+         | _, _ => false
+         end
+  end.
+
+Definition ok_epoch (e : epoch) : bool :=
+  negb (wf_request (e_model e) (e_params e)) || forallb (ok_call (e_model e) (e_params e)) (e_calls e).
+
+(** one correspondence case: a single evaluation with the augmented net introspected (wave 1), or a
+    history of edits, objects and calls (wave 2) *)
+Inductive tcase := Single (c : case) | History (h : list epoch).
+
+Definition agree_t (t : tcase) : bool :=
+  match t with Single c => agree c | History h => forallb agree_epoch h end.
+
+Definition ok_t (t : tcase) : bool :=
+  match t with Single c => ok c | History h => forallb ok_epoch h end.
